@@ -383,7 +383,7 @@ func (w *worker) runPath(fn *ssa.Function, trace []Decision, res *HarnessResult,
 			}
 		case *goPanic:
 			// uncaught panic of the interpreted program
-			v := p.mkViolation("panic", x.msg, "")
+			v := p.mkViolation("panic", x.msg, x.pos)
 			if v == nil {
 				if k, _ := p.extra["vkind"].(string); k != "" {
 					pr.Kind, pr.Msg = k, "while building the counterexample for: "+x.msg
